@@ -202,21 +202,40 @@ def _search_cst(here, out):
     return None, p.stdout.strip()[-300:]
 
 
-SEARCHERS = {"state_tree": lambda here, out: _search_state_tree(here, out, 4), "ffi_serde": _search_ffi, "parser": _search_parser, "privacy": _search_privacy, "sched": _search_sched, "boxed": _search_boxed, "cst": _search_cst, "layout": _search_layout, "schedvm": _search_schedvm}
+def _search_exchange(here, out):
+    """VM against WASM on programs that need many state exchange buffers next to static temporaries"""
+    exe, err = _build("ffi_serde", here, out)
+    if exe is None:
+        return None, "replay harness does not build against the current tree: " + err[-400:]
+    try:
+        p = subprocess.run([exe, "wasm-exchange"], capture_output=True, text=True, timeout=900)
+    except subprocess.TimeoutExpired:
+        return None, "replay search timeout"
+    m = re.search(r"FAILS (.*?) index=(\d+) (.*)", p.stdout)
+    if m:
+        return {"cmd": ["ffi_replay", "wasm-exchange", m.group(2)], "value": m.group(3)[:600], "clause": m.group(1)}, ""
+    return None, p.stdout.strip()[-200:]
+
+
+SEARCHERS = {"exchange": _search_exchange, "state_tree": lambda here, out: _search_state_tree(here, out, 4), "ffi_serde": _search_ffi, "parser": _search_parser, "privacy": _search_privacy, "sched": _search_sched, "boxed": _search_boxed, "cst": _search_cst, "layout": _search_layout, "schedvm": _search_schedvm}
 TOOLS = {"st_replay": "state_tree", "ffi_replay": "ffi_serde", "parser_replay": "parser"}
 
 
 
-def _searchers(cfg):
-    rp = cfg.get("replay")
+def _searchers(cfg, unit=None):
+    rp = cfg.get("replay_by_unit", {}).get(unit) or cfg.get("replay")
     names = rp if isinstance(rp, list) else ([rp] if rp else [])
     return [n for n in names if n in SEARCHERS]
 
 
-def _run_searchers(cfg, here, out):
+def _unit_has_replay(cfg, unit):
+    return unit in cfg.get("replay_by_unit", {}) or cfg.get("replay_units", [unit]).count(unit)
+
+
+def _run_searchers(cfg, here, out, unit=None):
     """try each configured searcher in order; first concrete failing input wins"""
     notes = []
-    for n in _searchers(cfg):
+    for n in _searchers(cfg, unit):
         found, note = SEARCHERS[n](here, out)
         if found:
             return found, note
@@ -229,8 +248,8 @@ def make_violation(prop, cfg, r, f, ob, here, out):
                "clause": f["clause"], "verifier": "verus", "verifier_output": f["raw"],
                "cut_sha256": {c.name: c.sha for c in r.cuts if c.name == f["fn"]}}
     found, note = (None, "no replay harness for this unit")
-    if _searchers(cfg) and cfg.get("replay_units", [r.unit]).count(r.unit):
-        found, note = _run_searchers(cfg, here, out)
+    if _searchers(cfg, r.unit) and _unit_has_replay(cfg, r.unit):
+        found, note = _run_searchers(cfg, here, out, r.unit)
     if found:
         payload["failing_input"] = found
         path = _write(prop, out, payload)
@@ -243,9 +262,9 @@ def make_violation(prop, cfg, r, f, ob, here, out):
 def search(prop, cfg, r, here, out, why=""):
     """proof annotations lost (exit 2 territory): only a concrete failing input of the real code
     turns this into a violation"""
-    if not _searchers(cfg) or not cfg.get("replay_units", [r.unit]).count(r.unit):
+    if not _searchers(cfg, r.unit) or not _unit_has_replay(cfg, r.unit):
         return None
-    found, note = _run_searchers(cfg, here, out)
+    found, note = _run_searchers(cfg, here, out, r.unit)
     if not found:
         return None
     payload = {"property": prop, "unit": r.unit,
